@@ -28,7 +28,7 @@ def run(ctx):
     thorough = ctx.tier == "thorough"
     for config in ("stable", "nightly"):
         rows = exprun.select(facts, config)
-        cases_a, meta = exprun.gen_cases(ctx, rows, lambda L: CONST_DIMS, ("random", "boundary", "special", "specialnan") if thorough else ("random", "special", "specialnan"),
+        cases_a, meta = exprun.gen_cases(ctx, rows, lambda L: CONST_DIMS, ("random", "boundary", "special", "specialnan", "signedzeros") if thorough else ("random", "special", "specialnan", "signedzeros"),
                                          places=("R",), forms=("a",), seed_tag=12)
         # minimised failing inputs of fixed findings run first, on every run (known_findings.json: C12 bf17999)
         for ty, reg, op, bits in REGRESSIONS:
